@@ -13,6 +13,13 @@ pub open spec fn abs_int(v: int) -> int { if v >= 0 { v } else { -v } }
 pub assume_specification [i32::abs] (x: i32) -> (r: i32)
     requires x != i32::MIN      // i32::MIN.abs() overflows (panic in debug builds, wrap in release builds)
     ensures r == abs_int(x as int);
+pub assume_specification [i32::saturating_abs] (x: i32) -> (r: i32)
+    ensures r == (if x == i32::MIN { i32::MAX as int } else { abs_int(x as int) });
+
+// A-VIEWRANGE: the value of a variable / view is an i32 (explanations are only ever evaluated on such assignments)
+#[verifier::external_body]
+pub proof fn axiom_eval_in_i32<V: IntegerVariable>(v: &V, a: Asg)
+    ensures i32::MIN <= v.eval(a) <= i32::MAX {}
 
 pub struct AbsoluteValuePropagator<VA, VB> {
     pub signed: VA,
